@@ -55,7 +55,7 @@ where
         {
             let o = self.dst.write_buf()?;
             if o.is_empty() {
-                return Ok(BlockRet::Again);
+                return Ok(BlockRet::WaitForStream(&self.dst, 1));
             }
         }
         if self.current_delay > 0 {
@@ -82,7 +82,9 @@ where
         let mut o = self.dst.write_buf()?;
         let (input, tags) = self.src.read_buf()?;
         let n = std::cmp::min(input.len(), o.len());
-        o.fill_from_slice(input.slice());
+        o.fill_from_slice(&input.slice()[..n]);
+        // Only the tags of the samples copied.
+        let tags: Vec<_> = tags.into_iter().filter(|t| t.pos() < n).collect();
         o.produce(n, &tags);
         input.consume(n);
         Ok(BlockRet::Again)
